@@ -390,4 +390,7 @@ def main(tier):
     check_out_guard(rep)
     check_isfull_c(rep, mod)
     check_stored_bound(rep, mod)
+    import acct
+    acct.check(rep, 'z', 150, c19.field_offsets('struct isal_zstream', ['next_in', 'avail_in', 'total_in', 'next_out', 'avail_out', 'total_out']),
+               c19.field_offsets('struct inflate_state', ['next_in', 'avail_in', 'next_out', 'avail_out', 'total_out']), mod)
     return rep.finish()
